@@ -156,17 +156,40 @@ Definition iset_get_pos {T} (o : tiset T) (ps : list nat) : res T :=
   | Some iv, Some m => mk_miset iv (reset_index m)
   | _, _ => Err
   end.
-(* ep[pd.Index / integer pd.Series]: values by position (np.asarray(key)), metadata by .loc *)
+(* ep[pd.Index / integer pd.Series] (as repaired): key = np.asarray(key), then values AND metadata
+   by position; negative integers count from the end (NumPy / iloc wrap-around) *)
+Definition wrap (n : nat) (k : Z) : option nat :=
+  if 0 <=? k then Some (Z.to_nat k)
+  else if 0 <=? k + Z.of_nat n then Some (Z.to_nat (k + Z.of_nat n)) else None.
+Fixpoint wrap_all (n : nat) (ks : list Z) : option (list nat) :=
+  match ks with
+  | [] => Some []
+  | k :: r => match wrap n k, wrap_all n r with
+              | Some p, Some o => Some (p :: o)
+              | _, _ => None
+              end
+  end.
 Definition iset_get_labels {T} (o : tiset T) (ks : list Z) : res T :=
+  match wrap_all (length (fst o)) ks with
+  | Some ps => iset_get_pos o ps
+  | None => Err
+  end.
+(* ep[boolean pd.Series] (as repaired): the mask's VALUES are used by position for the intervals and
+   for the metadata; the mask's own index plays no role *)
+Definition iset_get_bseries {T} (o : tiset T) (mask : list (Z * bool)) : res T :=
+  if (length mask =? length (fst o))%nat then iset_get_pos o (mask_pos (map snd mask)) else Err.
+
+(* the same two forms as they were before the repair (kept to state what was wrong):
+   values by position, metadata by .loc, which looks integer keys up by LABEL and ALIGNS a boolean
+   mask on the index labels *)
+Definition iset_get_labels_orig {T} (o : tiset T) (ks : list Z) : res T :=
   if forallb (fun k => 0 <=? k) ks then
     match sel (fst o) (map Z.to_nat ks), loc (snd o) ks with
     | Some iv, Some m => mk_miset iv (reset_index m)
     | _, _ => Err
     end
   else Err.
-(* ep[boolean pd.Series]: values by the POSITIONS of the True entries, metadata by .loc, which
-   aligns the mask on the index LABELS *)
-Definition iset_get_bseries {T} (o : tiset T) (mask : list (Z * bool)) : res T :=
+Definition iset_get_bseries_orig {T} (o : tiset T) (mask : list (Z * bool)) : res T :=
   if (length mask =? length (fst o))%nat then
     match sel (fst o) (mask_pos (map snd mask)), loc_mask (snd o) mask with
     | Some iv, Some m => mk_miset iv (reset_index m)
@@ -318,10 +341,22 @@ Definition group_get_mask {M T} (o : tgroup M T) (mask : list bool) : option (tg
 (* restrict / get / value_from: members transformed one by one, metadata passed as is *)
 Definition group_map {M T} (f : M -> M) (o : tgroup M T) : option (tgroup M T) :=
   mk_group (map (fun c => (fst c, f (snd c))) (fst o)) (snd o).
-(* merge_group(g1, g2, reset_index): metadata concatenated in argument order *)
+(* DataFrame.sort_index on the concatenated metadata (insertion sort by label) *)
+Fixpoint insert_label {T} (x : Z * T) (l : frame T) : frame T :=
+  match l with
+  | [] => [x]
+  | y :: r => if fst x <? fst y then x :: l else y :: insert_label x r
+  end.
+Definition sort_index {T} (m : frame T) : frame T := fold_left (fun acc x => insert_label x acc) m [].
+(* merge_group(g1, g2, reset_index) (as repaired): metadata concatenated in argument order, then
+   sorted by key when the keys are kept *)
 Definition group_merge {M T} (reset : bool) (a b : tgroup M T) : option (tgroup M T) :=
   let items := fst a ++ fst b in
   let m := snd a ++ snd b in
   if reset then mk_group (combine (rangeZ (length items)) (map snd items)) (range_frame (rows m))
   else if existsb (fun k => memZ k (map fst (fst b))) (map fst (fst a)) then None
-       else mk_group items m.
+       else mk_group items (sort_index m).
+(* before the repair: the concatenated metadata was handed over unsorted *)
+Definition group_merge_orig {M T} (a b : tgroup M T) : option (tgroup M T) :=
+  if existsb (fun k => memZ k (map fst (fst b))) (map fst (fst a)) then None
+  else mk_group (fst a ++ fst b) (snd a ++ snd b).
